@@ -107,6 +107,22 @@ def poison_search(chk, ents):
             chk.violation(f"c05:poison:{r['name']}:{b['what'][:30]}", b["what"], {"entry": r["name"], **b})
 
 
+def packing_oracle(chk, ents):
+    """The values the kernels take from w and c are the ones the contract puts there: every selected form/expression
+    against the independent oracle, which reads coefficient j / constant j at the positions the UFCx contract defines."""
+    def work(i):
+        return numeric.compare_entry(ents[i], {}, seed=chk.seed * 37 + i, reps=2)
+    res = cjit.parallel_map(work, list(range(len(ents))))
+    for i, (st, r) in sorted(res.items()):
+        if st != "ok" or "error" in r:
+            chk.notes.setdefault("oracle_errors", []).append(f"{ents[i].name}: {str(r)[:160]}")
+            continue
+        chk.case("packing_oracle", r["name"], n=max(1, r["compared"]))
+        for b in r["bad"]:
+            chk.violation(f"c05:packing:{r['name']}", f"kernel does not consume w/c in the declared packing: differs from the oracle (rel {b.get('relerr')})",
+                          {"entry": r["name"], **b})
+
+
 def run(chk):
     chk.rule = ("layout: real IR offsets/positions vs the Lean prefix-sum model on corpus + synthetic forms; read sets: for every kernel the Lean "
                 "driver computes the indices of w and c read over ALL entity/permutation tuples (both branches of conditionals) and compares "
@@ -125,5 +141,6 @@ def run(chk):
         sel = [e for e in sel if e.name in ("derivative_drop", "subdomains", "laplace_coef_tri_p2", "int_facet_tri", "multi_rule",
                                             "tensor_constant", "tensor_constant_nonsquare", "rhs_tri_p2", "ext_facet_tri", "quadrature_element", "real_element")]
     poison_search(chk, sel)
+    packing_oracle(chk, sel + [e for e in ents if e.kind == "expression"][: (4 if chk.tier == "quick" else 100)])
     if chk.tier == "thorough":
         chk.leanchecker([L.LAYOUT_MODULE, "FfcxProofs.C05"])
